@@ -175,21 +175,24 @@ func getMXIDMapping(e PDU) (*MXIDMapping, error) {
 
 // validateMXIDMappingSignatures validates that the MXIDMapping is correctly signed
 func validateMXIDMappingSignatures(ctx context.Context, e PDU, mapping MXIDMapping, verifier JSONVerifier, verImpl IRoomVersion) error {
+	// The mapping has to be vouched for by the server of the user it names.
+	// Signatures of any other server, or no signatures at all, prove nothing.
+	userID, err := spec.NewUserID(mapping.UserID, true)
+	if err != nil {
+		return fmt.Errorf("invalid user ID in MXIDMapping: %w", err)
+	}
+
 	mappingBytes, err := json.Marshal(mapping)
 	if err != nil {
 		return err
 	}
 
-	var toVerify []VerifyJSONRequest
-	for s := range mapping.Signatures {
-		v := VerifyJSONRequest{
-			Message:              mappingBytes,
-			AtTS:                 e.OriginServerTS(),
-			ServerName:           s,
-			ValidityCheckingFunc: verImpl.SignatureValidityCheck,
-		}
-		toVerify = append(toVerify, v)
-	}
+	toVerify := []VerifyJSONRequest{{
+		Message:              mappingBytes,
+		AtTS:                 e.OriginServerTS(),
+		ServerName:           userID.Domain(),
+		ValidityCheckingFunc: verImpl.SignatureValidityCheck,
+	}}
 
 	// check that the mapping is correctly signed by the server
 	results, err := verifier.VerifyJSONs(ctx, toVerify)
